@@ -134,6 +134,13 @@ RespHeaderSets == <<
     <<RField("x-bb", "lower", <<"b1">>)>> >>
 PadFor(hi, k) == IF hi = 4 THEN (IF k % 2 = 0 THEN 4200 ELSE 9000) ELSE 0
 
+\* header fields carried by the interim 100 Continue itself: none (the usual case), a name the final response also
+\* carries (with another value), specially stored names, a name no final response carries
+InterimSets == << << >>,
+                  <<RField("x-a", "canon", <<"iv">>)>>,
+                  <<RField("server", "canon", <<"edge/1">>), RField("x-bb", "lower", <<"ib">>)>>,
+                  <<RField("x-interim", "canon", <<"1">>), RField("set-cookie", "canon", <<"ic=1">>)>> >>
+
 Ones(n) == [j \in 1 .. n |-> 1]
 
 \* body shapes: [framing, status, bodyLen, chunks, head]
@@ -164,7 +171,7 @@ ScriptOf(si, hi, interim, k) ==
         fields |-> RespHeaderSets[hi], framing |-> sh.framing, bodyLen |-> sh.bodyLen, chunks |-> sh.chunks,
         hexUpper |-> (k % 2 = 0), chunkExt |-> (sh.framing = "chunked" /\ k % 3 = 0), bodyLit |-> "",
         trailers |-> IF sh.framing = "chunked" /\ ~sh.head /\ k % 2 = 1 THEN <<T("X-T", "x-t", "tv")>> ELSE << >>,
-        interim |-> interim, connClose |-> cc, connStyle |-> Styles[((k \div 4) % 4) + 1],
+        interim |-> interim, interimFields |-> IF interim THEN InterimSets[(k % 4) + 1] ELSE << >>, connClose |-> cc, connStyle |-> Styles[((k \div 4) % 4) + 1],
         keepAlive |-> (ver = "1.0" /\ cc = "" /\ sh.framing # "close" /\ k % 2 = 0),
         clStyle |-> Styles[(k % 4) + 1], head |-> sh.head, pad |-> PadFor(hi, k), i |-> 0, padI |-> 0]
 
